@@ -498,3 +498,114 @@ func decideCmp(cond ssa.Value, isA, isB func(ssa.Value) bool, rel string) int {
 	}
 	return 1
 }
+
+// carriedAcross: does the derivation of v (through phis, local variables, append, slicing, ranging)
+// include a phi in the loop header block `header` that receives a non-constant value over a back
+// edge — i.e. does v carry data from an earlier iteration of that loop into the current one?
+func carriedAcross(v ssa.Value, header *ssa.BasicBlock) *ssa.Phi {
+	seen := map[ssa.Value]bool{}
+	var found *ssa.Phi
+	var walk func(v ssa.Value, d int)
+	walk = func(v ssa.Value, d int) {
+		if v == nil || seen[v] || d > 40 || found != nil {
+			return
+		}
+		seen[v] = true
+		switch x := v.(type) {
+		case *ssa.Phi:
+			if x.Block() == header {
+				for i, e := range x.Edges {
+					pred := x.Block().Preds[i]
+					if header.Dominates(pred) {
+						if _, isConst := e.(*ssa.Const); !isConst {
+							found = x
+							return
+						}
+					}
+				}
+			}
+			for _, e := range x.Edges {
+				walk(e, d+1)
+			}
+		case *ssa.UnOp:
+			if al, ok := x.X.(*ssa.Alloc); ok {
+				for _, ref := range *al.Referrers() {
+					if st, ok := ref.(*ssa.Store); ok && st.Addr == ssa.Value(al) {
+						walk(st.Val, d+1)
+					}
+				}
+				return
+			}
+			walk(x.X, d+1)
+		case *ssa.Call:
+			if b, ok := x.Call.Value.(*ssa.Builtin); ok && b.Name() == "append" {
+				walk(x.Call.Args[0], d+1)
+			}
+		case *ssa.Slice:
+			walk(x.X, d+1)
+		case *ssa.Range:
+			walk(x.X, d+1)
+		case *ssa.Next:
+			walk(x.Iter, d+1)
+		case *ssa.Extract:
+			walk(x.Tuple, d+1)
+		case *ssa.IndexAddr:
+			walk(x.X, d+1)
+		case *ssa.ChangeType:
+			walk(x.X, d+1)
+		case *ssa.Convert:
+			walk(x.X, d+1)
+		case *ssa.MakeInterface:
+			walk(x.X, d+1)
+		}
+	}
+	walk(v, 0)
+	return found
+}
+
+// loopHeaderOf: the header block of the range loop whose iteration yields v (v derives from the
+// Next / range-index phi of that loop); nil if v is not a loop variable.
+func loopHeaderOf(v ssa.Value) *ssa.BasicBlock {
+	var hdr *ssa.BasicBlock
+	seen := map[ssa.Value]bool{}
+	var walk func(v ssa.Value, d int)
+	walk = func(v ssa.Value, d int) {
+		if v == nil || seen[v] || d > 12 || hdr != nil {
+			return
+		}
+		seen[v] = true
+		switch x := v.(type) {
+		case *ssa.Next:
+			hdr = x.Block()
+		case *ssa.Extract:
+			walk(x.Tuple, d+1)
+		case *ssa.UnOp:
+			if al, ok := x.X.(*ssa.Alloc); ok {
+				for _, ref := range *al.Referrers() {
+					if st, ok := ref.(*ssa.Store); ok && st.Addr == ssa.Value(al) {
+						walk(st.Val, d+1)
+					}
+				}
+				return
+			}
+			walk(x.X, d+1)
+		case *ssa.IndexAddr:
+			// slice[i] with i the range-index phi
+			if p, ok := x.Index.(*ssa.BinOp); ok {
+				if ph, ok := p.X.(*ssa.Phi); ok && ph.Comment == "rangeindex" {
+					hdr = ph.Block()
+					return
+				}
+			}
+			if ph, ok := x.Index.(*ssa.Phi); ok && ph.Comment == "rangeindex" {
+				hdr = ph.Block()
+			}
+		case *ssa.Phi:
+			for _, e := range x.Edges {
+				walk(e, d+1)
+			}
+		}
+	}
+	walk(v, 0)
+	return hdr
+}
